@@ -434,7 +434,7 @@ func (e *env) mutate(n *rnode) string {
 		}
 		return c[e.r.Intn(len(c))]
 	}
-	switch e.r.Intn(11) {
+	switch e.r.Intn(12) {
 	case 0: // reuse a pool: Validate panics
 		var ps []*rnode
 		for _, x := range nodes {
@@ -507,6 +507,11 @@ func (e *env) mutate(n *rnode) string {
 		if p := pick("parallel"); p != nil {
 			p.kids, p.weights = nil, nil
 			return "empty-parallel"
+		}
+	case 11: // a series that declares another input denom than its (self-consistent) first hop takes
+		if s := pick("series"); s != nil && len(s.kids) > 0 {
+			s.din = denoms[(denomCode(s.din))%4]
+			return "series-declared-in"
 		}
 	}
 	n.dout = denoms[(denomCode(n.dout))%4]
@@ -888,7 +893,29 @@ func (e *env) corpus() []caseSpec {
 		pool("urise", "uatom", 3),
 		{kind: "series", din: "urise", dout: "uatom", kids: []*rnode{pool("urise", "uosmo", 6), pool("uosmo", "uatom", 2)}},
 	}, weights: []string{"0.333333333333333333", "1", "2"}}
-	return []caseSpec{
+	// a series whose declared input denom is not the one its first hop takes (every hop valid in itself):
+	// must be refused; executed, it would debit a denom the message never named (seeded C03-r8)
+	badSer1 := &rnode{kind: "series", din: "urise", dout: "uatom", kids: []*rnode{pool("uusdc", "uatom", 1)}}
+	badSer2 := &rnode{kind: "series", din: "urise", dout: "uosmo", kids: []*rnode{pool("uusdc", "uatom", 1), pool("uatom", "uosmo", 2)}}
+	badNested := &rnode{kind: "parallel", din: "urise", dout: "uatom", kids: []*rnode{
+		{kind: "series", din: "urise", dout: "uatom", kids: []*rnode{pool("uusdc", "uatom", 1)}},
+		pool("urise", "uatom", 3),
+	}, weights: []string{"1", "1"}}
+	badInner := &rnode{kind: "series", din: "urise", dout: "uosmo", kids: []*rnode{
+		pool("urise", "uusdc", 0),
+		{kind: "series", din: "uusdc", dout: "uosmo", kids: []*rnode{pool("uatom", "uosmo", 2)}},
+	}}
+	bad := []caseSpec{
+		{tag: "corpus:series-declared-in-1hop", route: badSer1.clone(), amount: i(100_000), limit: &one, rate: "0.01", provider: true, poor: 0},
+		{tag: "corpus:series-declared-in-1hop-exact-out", out: true, route: badSer1.clone(), amount: i(100_000), limit: &huge, rate: "0.01", provider: true, poor: 0},
+		{tag: "corpus:series-declared-in-2hops", route: badSer2.clone(), amount: i(200_000), limit: &one, rate: "0", poor: 0},
+		{tag: "corpus:series-declared-in-2hops-exact-out", out: true, route: badSer2.clone(), amount: i(200_000), limit: &huge, rate: "0.003", poor: 0},
+		{tag: "corpus:series-declared-in-nested", route: badNested.clone(), amount: i(300_000), limit: &one, rate: "0.01", provider: true, poor: 0},
+		{tag: "corpus:series-declared-in-nested-exact-out", out: true, route: badNested.clone(), amount: i(300_000), limit: &huge, rate: "0.01", poor: 0},
+		{tag: "corpus:series-declared-in-inner", route: badInner.clone(), amount: i(150_000), limit: &one, rate: "0.01", poor: 0},
+		{tag: "corpus:series-declared-in-inner-exact-out", out: true, route: badInner.clone(), amount: i(150_000), limit: &huge, rate: "0.01", poor: 0},
+	}
+	return append([]caseSpec{
 		// defect 1 (parallel split never accumulated): 100 over 1:1 must be 50 + 50
 		{tag: "corpus:parallel-1:1-exact-in", route: par11.clone(), amount: i(100_000), limit: &one, rate: "0.01", provider: true, poor: 1},
 		{tag: "corpus:parallel-1:1-exact-out", out: true, route: par11.clone(), amount: i(100_000), limitMod: 0, rate: "0.01", provider: true, poor: 1},
@@ -911,7 +938,7 @@ func (e *env) corpus() []caseSpec {
 		{tag: "corpus:incoming-exact-in-no-provider", incoming: true, route: par11.clone(), amount: i(100_001), limitMod: 3, rate: "0.01"},
 		{tag: "corpus:fee-rate-one-exact-out", out: true, route: pool("urise", "uusdc", 0), amount: i(1000), limit: &huge, rate: "1", provider: true},
 		{tag: "corpus:fee-rate-one-exact-in", route: pool("urise", "uusdc", 0), amount: i(1000), limit: &one, rate: "1", provider: true},
-	}
+	}, bad...)
 }
 
 // Run generates n cases (plus the fixed corpus) and writes cases + stats into outDir.
